@@ -5,6 +5,7 @@
 package main
 
 import (
+	"context"
 	"errors"
 	"flag"
 	"fmt"
@@ -153,11 +154,15 @@ func methods() []method {
 		// the empty / nil class of every container-ish method (early-return paths must still recycle)
 		{"Array/empty", func(e *zerolog.Event) *zerolog.Event { return e.Array("k", zerolog.Arr()) }, nil},
 		{"Dict/empty", func(e *zerolog.Event) *zerolog.Event { return e.Dict("k", zerolog.Dict()) }, func(a *zerolog.Array) *zerolog.Array { return a.Dict(zerolog.Dict()) }},
-		{"Dict/emptyarr", func(e *zerolog.Event) *zerolog.Event { return e.Dict("k", zerolog.Dict().Array("a", zerolog.Arr()).Dict("d", zerolog.Dict())) }, nil},
+		{"Dict/emptyarr", func(e *zerolog.Event) *zerolog.Event {
+			return e.Dict("k", zerolog.Dict().Array("a", zerolog.Arr()).Dict("d", zerolog.Dict()))
+		}, nil},
 		{"Str/empty", func(e *zerolog.Event) *zerolog.Event { return e.Str("", "") }, func(a *zerolog.Array) *zerolog.Array { return a.Str("") }},
 		{"Strs/empty", func(e *zerolog.Event) *zerolog.Event { return e.Strs("k", []string{}).Strs("n", nil) }, nil},
 		{"Bytes/empty", func(e *zerolog.Event) *zerolog.Event { return e.Bytes("k", []byte{}).Hex("n", nil) }, func(a *zerolog.Array) *zerolog.Array { return a.Bytes(nil).Hex([]byte{}) }},
-		{"Ints/empty", func(e *zerolog.Event) *zerolog.Event { return e.Ints("k", []int{}).Uints8("n", nil).Floats64("f", nil).Bools("b", []bool{}) }, nil},
+		{"Ints/empty", func(e *zerolog.Event) *zerolog.Event {
+			return e.Ints("k", []int{}).Uints8("n", nil).Floats64("f", nil).Bools("b", []bool{})
+		}, nil},
 		{"Times/empty", func(e *zerolog.Event) *zerolog.Event { return e.Times("k", []time.Time{}).Durs("n", nil) }, nil},
 		{"Err/nil", func(e *zerolog.Event) *zerolog.Event { return e.Err(nil).AnErr("k", nil) }, nil}, // (Array.Err(nil) goes through AppendInterface: outside the statement's "plain error")
 		{"RawJSON/empty", func(e *zerolog.Event) *zerolog.Event { return e.RawJSON("k", []byte("{}")) }, nil},
@@ -221,6 +226,14 @@ func main() {
 			lcfg{"timestamp-hook" + sfx, zerolog.New(w).With().Timestamp().Logger().Level(lvl), on},
 		)
 	}
+	// other ways of being filtered / disabled: the global level, a Disabled logger, Nop(), the logger the
+	// library hands out for a context without one; and enabled loggers reached through Output / Level / a copy
+	lcs = append(lcs,
+		lcfg{"nop/filtered", zerolog.Nop(), false},
+		lcfg{"disabled-level/filtered", zerolog.New(w).With().Str("c", "ctx").Logger().Level(zerolog.Disabled), false},
+		lcfg{"ctx-default/filtered", *zerolog.Ctx(context.Background()), false},
+		lcfg{"output-derived/enabled", zerolog.New(os.Stderr).With().Str("c", "ctx").Logger().Output(w).Level(zerolog.DebugLevel), true},
+	)
 	L := 2
 	if tier == "thorough" {
 		L = 3
